@@ -627,6 +627,9 @@ pub fn c01(tier: &str) -> (Vec<Space>, Focus) {
         cfgs_plain(s.n, &[Api { kind: Kind::ForEach, mutable: false, with: true }], &[None], &REVS)
     }));
     if tier == "thorough" {
+        v.push(space("all DAGs x declarations, n=4 T=2 (3.56 million built graphs); for_each_concurrent_with x order", decl_specs(4, 2), None, |s| {
+            cfgs_plain(s.n, &[Api { kind: Kind::ForEach, mutable: false, with: true }], &[None], &REVS)
+        }));
         v.push(space("all DAGs x declarations, n=4 T=1; main configurations", decl_specs(4, 1), None, main_cfgs));
         v.push(space("n=3 T=2 with interrupt at every point / every failing subset", decl_specs(3, 2), None, stress));
     }
